@@ -569,3 +569,56 @@ Proof.
   intros Ha Hb Hz. unfold contrib. rewrite Ha, Hb. apply paf_cell_pval.
   destruct (Qeq_bool (len2 p q) 0) eqn:E; [|reflexivity]. apply Qeq_bool_iff in E. contradiction.
 Qed.
+
+(* round 5: the directly computed cell of EdgeMaps.sample_cell (what the harness evaluates on a
+   sample of cells of LARGE images) is the cell of the whole field *)
+Lemma sample_cell_spec fl fb samples H W sig s edges e c i j cl :
+  in_domain fb samples H W s edges = true ->
+  sample_cell fl fb samples H W sig s edges (e, c, i, j) = Some cl ->
+  cell4 (generate_pafs fl fb samples H W sig s edges) e c i j = Some cl /\
+  cell3 (generate_pafs_flat fl fb samples H W sig s edges) (2 * e + c) i j = Some cl.
+Proof.
+  intros Hd Hs. unfold sample_cell in Hs.
+  destruct (nth_error edges e) as [[a b]|] eqn:He; [|discriminate].
+  destruct ((c <? 2)%nat && (i * s <? H)%nat && (j * s <? W)%nat) eqn:Hc; [|discriminate].
+  apply andb_prop in Hc. destruct Hc as [Hc Hj]. apply andb_prop in Hc. destruct Hc as [Hc Hi].
+  apply Nat.ltb_lt in Hc, Hi, Hj.
+  destruct (cell_dom fl fb samples H W sig s edges e a b c i j Hd He Hc Hi Hj) as [cl' [H1 [H2 _]]].
+  assert (E : cl' = cl).
+  { rewrite H2. injection Hs as <-. reflexivity. }
+  subst cl'. rewrite E in H1. split; [exact H1|].
+  rewrite generate_pafs_flat_channel; [exact H1| |exact Hc].
+  apply nth_error_Some. rewrite He. discriminate.
+Qed.
+
+Lemma sample_cell_defined fl fb samples H W sig s edges e a b c i j :
+  nth_error edges e = Some (a, b) -> (c < 2)%nat -> (i * s < H)%nat -> (j * s < W)%nat ->
+  exists cl, sample_cell fl fb samples H W sig s edges (e, c, i, j) = Some cl.
+Proof.
+  intros He Hc Hi Hj. unfold sample_cell. rewrite He.
+  apply Nat.ltb_lt in Hc, Hi, Hj. rewrite Hc, Hi, Hj. cbn [andb]. eexists. reflexivity.
+Qed.
+
+(* round 5: what the harness's bracket (c05.py weight_interval) rests on.  If the computed distance D'
+   to the segment is within eps of the true distance D (eps = the float32 rounding bound of the code's
+   difference form, derived in c05.py; NOT proved here), the weight the code forms from the squared
+   distance D'^2 lies between the true weights at distances D + eps and max(0, D - eps). *)
+Lemma weight_bracket sig D D' eps :
+  sig <> 0 -> 0 <= D -> 0 <= D' -> Rabs (D' - D) <= eps ->
+  paf_weight sig ((D + eps) * (D + eps)) <= paf_weight sig (D' * D') <=
+  paf_weight sig (Rmax 0 (D - eps) * Rmax 0 (D - eps)).
+Proof.
+  intros Hs HD HD' Habs.
+  assert (Hb : - eps <= D' - D <= eps).
+  { unfold Rabs in Habs. destruct (Rcase_abs (D' - D)); lra. }
+  split.
+  - apply paf_weight_monotone; [exact Hs|]. split.
+    + apply Rmult_le_pos; lra.
+    + apply Rmult_le_compat; lra.
+  - apply paf_weight_monotone; [exact Hs|].
+    assert (H0 : 0 <= Rmax 0 (D - eps)) by apply Rmax_l.
+    assert (H1 : Rmax 0 (D - eps) <= D') by (apply Rmax_lub; lra).
+    split.
+    + apply Rmult_le_pos; exact H0.
+    + apply Rmult_le_compat; assumption.
+Qed.
